@@ -52,6 +52,25 @@ def _hook(name: str) -> Any:
     return hook
 
 
+class Strict(plumpy.Process):
+    """Cannot be constructed with a non-integer x: the constructor raises out of the process's own code."""
+
+    NAME = 'strict'
+
+    @classmethod
+    def define(cls, spec: Any) -> None:
+        super().define(spec)
+        spec.input('x', valid_type=int)
+
+
+def failed_construction(loop: Any) -> bool:
+    try:
+        Strict(inputs={'x': 'not an int'}, pid='strict', loop=loop)
+    except ValueError:
+        return True
+    return False
+
+
 class Proc(plumpy.Process):
     """role: 'plain' | 'launcher' (launches a child from its step) | 'nester' (executes a child inside its step)."""
 
@@ -76,6 +95,12 @@ class Proc(plumpy.Process):
         self.call_soon(self.callback, 'early')
         await ENV.gate(self.NAME)
         ENV.sample('step', 'run:after-gate', self)
+        if '.' in self.NAME:
+            # code of the parent triggered from the child's step: it must see the parent
+            parent = ENV.procs[self.NAME.rsplit('.', 1)[0]]
+            parent.call_soon(parent.callback, 'by-child')
+        failed_construction(self.loop)
+        ENV.sample('step', 'run:after-failed-construction', self)
         if self.ROLE == 'launcher':
             child = self.launch(Proc, inputs={'name': self.NAME + '.child', 'role': 'plain'}, pid=self.NAME + '.child')
             ENV.sample('step', 'run:after-launch', self)
@@ -108,6 +133,13 @@ for _name in HOOKS:
     setattr(Proc, _name, _hook(_name))
 
 
+async def drive(proc: Any) -> None:
+    """Steps a process by hand (``step`` is public); this coroutine is no process."""
+    while not proc.has_terminated():
+        await proc.step()
+        ENV.sample('driver', 'after-step', None)
+
+
 async def observer(n: int) -> None:
     for i in range(n):
         ENV.sample('observer', f'observer:{i}', None)
@@ -122,6 +154,8 @@ SCENARIOS: Dict[str, Tuple[Tuple[str, str], ...]] = {
     'nester+plain': (('A', 'nester'), ('B', 'plain')),
     'nester+launcher': (('A', 'nester'), ('B', 'launcher')),
     'three': (('A', 'plain'), ('B', 'launcher'), ('C', 'nester')),
+    'hand-stepped': (('A', 'plain'),),
+    'hand-stepped+launcher': (('A', 'plain'), ('B', 'launcher')),
 }
 
 
@@ -171,10 +205,15 @@ class Prop:
 
             try:
                 tasks = []
+                failed_construction(loop)
+                env.sample('harness', 'after-failed-construction', None)
                 for name, role in SCENARIOS[scenario]:
                     proc = Proc(inputs={'name': name, 'role': role}, pid=name, loop=loop)
                     env.sample('harness', 'after-construction', None)
-                    tasks.append(loop.create_task(proc.step_until_terminated()))
+                    if scenario.startswith('hand-stepped') and name == 'A':
+                        tasks.append(loop.create_task(drive(proc)))
+                    else:
+                        tasks.append(loop.create_task(proc.step_until_terminated()))
                 loop.create_task(observer(6))
                 loop.pump = pump
                 try:
@@ -219,8 +258,9 @@ def factory() -> Prop:
 def units_for(tier: str) -> List[Any]:
     names = ['two-plain', 'launcher', 'launcher+plain', 'nester', 'nester+plain']
     units: List[Any] = [(n, False) for n in names] + [('two-plain', True), ('launcher', True), ('nester', True)]
+    units += [('hand-stepped', True), ('hand-stepped', False)]
     if tier != 'quick':
-        units += [('nester+launcher', False), ('three', False), ('nester+plain', True)]
+        units += [('nester+launcher', False), ('three', False), ('nester+plain', True), ('hand-stepped+launcher', True)]
     return units
 
 
